@@ -16,7 +16,7 @@ Variable tlds : list str.
 Variable year_prefixes : list str.
 Variable context_strings : list str.
 
-Notation lower := (Multiword.lower lower_c).
+Notation L := (map (lower1 lower_c)).
 Notation good := (good isalpha isdigit lower_c).
 Notation sound := (sound isalpha isdigit kbs min_run year_prefixes context_strings).
 Notation pm := (pm lower_c).
@@ -29,16 +29,16 @@ Proof.
   split; [reflexivity|]. split; [reflexivity|]. split; [apply slice_prefix|apply sfrom_app].
 Qed.
 
-Lemma email_go_spec : forall tl s p f, len (lower s) = len s ->
-  email_go s (lower s) tl = DYes p f ->
+Lemma email_go_spec : forall tl s p f, len (L s) = len s ->
+  email_go s (L s) tl = DYes p f ->
   exists l2 l3, s = l2 ++ l3 /\ l2 <> [] /\ p = (l2, Some LE) :: osec l3.
 Proof.
   induction tl as [|tld tl IH]; intros s p f Hlen H; simpl in H; [discriminate|].
-  destruct (find (lower s) tld =? -1) eqn:Ef; [eapply IH; eassumption|]. apply Z.eqb_neq in Ef.
+  destruct (find (L s) tld =? -1) eqn:Ef; [eapply IH; eassumption|]. apply Z.eqb_neq in Ef.
   destruct (find_bounds _ _ _ eq_refl Ef) as (H0 & Hb).
-  set (e := find (lower s) tld + len tld) in *.
-  destruct (find (slice (lower s) 0 e) [c_at] =? -1); [eapply IH; eassumption|].
-  destruct (nonempty (slice (lower s) 0 e)) eqn:En; [|discriminate].
+  set (e := find (L s) tld + len tld) in *.
+  destruct (find (slice (L s) 0 e) [c_at] =? -1); [eapply IH; eassumption|].
+  destruct (nonempty (slice (L s) 0 e)) eqn:En; [|discriminate].
   injection H as <- _.
   assert (He : 0 <= e <= len s) by (pose proof (len_nonneg tld); unfold e; lia).
   destruct (cut2 s e He) as (a & b & Es & Ha & -> & ->).
@@ -51,13 +51,14 @@ Proof.
       rewrite Es, len_app, len_cons. pose proof (len_nonneg b). lia.
 Qed.
 
-Lemma detect_email_split_ok s p f : good s -> detect_email lower_c tlds s = DYes p f ->
+Lemma detect_email_split_ok s p f : good s -> detect_email lower_c true tlds s = DYes p f ->
   split_ok pm good sound s p.
 Proof.
   intros Hg H. unfold detect_email in H.
-  destruct (negb (contains (lower s) [c_dot])); [discriminate|].
-  destruct (negb (contains (lower s) [c_at])); [discriminate|].
-  apply email_go_spec in H; [|apply lower_len; now apply (good_lenp isalpha isdigit)].
+  rewrite (working_aligned lower_c s (good_lowne isalpha isdigit lower_c s Hg)) in H.
+  destruct (negb (contains (L s) [c_dot])); [discriminate|].
+  destruct (negb (contains (L s) [c_at])); [discriminate|].
+  apply email_go_spec in H; [|apply L_len].
   destruct H as (l2 & l3 & -> & Hne & ->).
   change (l2 ++ l3) with ([] ++ l2 ++ l3) in *.
   change ((l2, Some LE) :: osec l3) with (osec [] ++ [(l2, Some LE)] ++ osec l3).
@@ -78,7 +79,7 @@ Proof.
   destruct (nonempty _); discriminate.
 Qed.
 
-Lemma detect_email_no_err s : detect_email lower_c tlds s <> DErr.
+Lemma detect_email_no_err s : detect_email lower_c true tlds s <> DErr.
 Proof.
   unfold detect_email. destruct (negb _); [discriminate|]. destruct (negb _); [discriminate|]. apply email_go_no_err.
 Qed.
@@ -161,47 +162,55 @@ Qed.
 
 Lemma web_end_of_url_total ws tld T : occ_ok ws tld T -> web_end_of_url ws tld T <> None.
 Proof.
-  intros (H0 & Hb). unfold web_end_of_url.
+  intros (H0 & Hb). unfold web_end_of_url. pose proof (len_nonneg tld).
   destruct (T + len tld =? len ws) eqn:E; [discriminate|]. apply Z.eqb_neq in E.
   destruct (getc_some ws (T + len tld) ltac:(lia)) as (? & c & ? & _ & _ & ->). destruct (N.eqb c c_slash); discriminate.
 Qed.
 
-Lemma web_accept_spec s tld T p f : len_preserving lower_c s -> occ_ok (lower s) tld T ->
-  web_accept s (lower s) tld T = DYes p f ->
-  exists l1 l2 l3, s = l1 ++ l2 ++ l3 /\ l2 <> [] /\ p = osec l1 ++ [(lower l2, Some LW)] ++ osec l3.
+Lemma web_accept_spec s tld T p f : occ_ok (L s) tld T ->
+  web_accept s (L s) tld T = DYes p f ->
+  exists l1 l2 l3, s = l1 ++ l2 ++ l3 /\ l2 <> [] /\ p = osec l1 ++ [(L l2, Some LW)] ++ osec l3.
 Proof.
-  intros Hp Hocc H. unfold web_accept in H.
-  destruct (web_end_of_url (lower s) tld T) as [eou|] eqn:Ee; [|discriminate].
+  intros Hocc H. unfold web_accept in H.
+  destruct (web_end_of_url (L s) tld T) as [eou|] eqn:Ee; [|discriminate].
   pose proof (web_end_of_url_spec _ _ _ _ Hocc Ee) as He.
-  pose proof (web_prefix_range (lower s) (web_start_index (lower s) T)) as Hr.
-  set (st3 := web_prefix (lower s) (web_start_index (lower s) T)) in *.
+  pose proof (web_prefix_range (L s) (web_start_index (L s) T)) as Hr.
+  set (st3 := web_prefix (L s) (web_start_index (L s) T)) in *.
   set (sou := if snd st3 =? -1 then 0 else snd st3) in *.
   assert (Hsou : 0 <= sou) by (unfold sou; destruct (snd st3 =? -1) eqn:E; [lia|apply Z.eqb_neq in E; lia]).
   cbv zeta in H.
-  destruct (nonempty (slice (lower s) sou eou)) eqn:En; [|discriminate]. apply nonempty_true in En.
+  destruct (nonempty (slice (L s) sou eou)) eqn:En; [|discriminate]. apply nonempty_true in En.
   injection H as <- _.
-  assert (Hlen : len (lower s) = len s) by (now apply lower_len).
+  assert (Hlen : len (L s) = len s) by (apply L_len).
+  pose proof (len_nonneg tld) as Htn. pose proof Hocc as (Hocc0 & Hoccb).
   assert (Hlt : sou < eou).
   { destruct (Z_lt_ge_dec sou eou); [assumption|]. exfalso. apply En. apply slice_empty; lia. }
-  destruct (lower_cut lower_c s sou eou Hp ltac:(lia) ltac:(lia)) as (l1 & l2 & l3 & Es & Hl1 & Hl2 & Els & Hll1 & Hll2).
+  destruct (cut3 s sou eou ltac:(lia) ltac:(lia)) as (l1 & l2 & l3 & Es & Hl1 & Hl2).
+  assert (Els : L s = L l1 ++ L l2 ++ L l3) by (rewrite Es at 1; now rewrite !map_app).
+  pose proof (L_len lower_c l1) as Hll1. pose proof (L_len lower_c l2) as Hll2.
   exists l1, l2, l3. split; [assumption|]. split.
   - intros ->. rewrite len_nil in Hl2. lia.
-  - rewrite Els. rewrite <- Hll1 at 2. replace eou with (len (lower l1) + len (lower l2)) at 2 by lia.
-    rewrite slice_app3. rewrite <- Hl1. rewrite (pre_osec s l1 _ Es). f_equal. f_equal.
-    rewrite Es at 2. replace eou with (len l1 + len l2) at 2 by lia. rewrite sfrom_app3.
-    rewrite Es at 1. rewrite !len_app. destruct l3 as [|c l3]; simpl.
-    + rewrite len_nil. replace (eou =? len l1 + (len l2 + 0)) with true; [reflexivity|]. symmetry. apply Z.eqb_eq. lia.
-    + rewrite len_cons. pose proof (len_nonneg l3).
-      replace (eou =? len l1 + (len l2 + (1 + len l3))) with false; [reflexivity|]. symmetry. apply Z.eqb_neq. lia.
+  - assert (Emid : slice (L s) sou eou = L l2).
+    { rewrite Els. replace sou with (len (L l1)) by lia. replace eou with (len (L l1) + len (L l2)) by lia.
+      apply slice_app3. }
+    assert (Epre : (if sou =? 0 then [] else [(slice s 0 sou, @None label)]) = osec l1).
+    { rewrite <- Hl1. apply (pre_osec s l1 _ Es). }
+    assert (Epost : (if eou =? len s then [] else [(sfrom s eou, @None label)]) = osec l3).
+    { replace eou with (len l1 + len l2) by lia. rewrite Es. rewrite sfrom_app3.
+      rewrite !len_app. destruct l3 as [|c l3]; simpl.
+      + rewrite len_nil. replace (len l1 + len l2 =? len l1 + (len l2 + 0)) with true; [reflexivity|]. symmetry. apply Z.eqb_eq. lia.
+      + rewrite len_cons. pose proof (len_nonneg l3).
+        replace (len l1 + len l2 =? len l1 + (len l2 + (1 + len l3))) with false; [reflexivity|]. symmetry. apply Z.eqb_neq. lia. }
+    rewrite Emid, Epre, Epost. reflexivity.
 Qed.
 
-Lemma web_go_spec : forall tl s p f, Forall (fun t => 1 <= len t) tl -> len_preserving lower_c s ->
-  web_go isalpha s (lower s) tl = DYes p f ->
-  exists l1 l2 l3, s = l1 ++ l2 ++ l3 /\ l2 <> [] /\ p = osec l1 ++ [(lower l2, Some LW)] ++ osec l3.
+Lemma web_go_spec : forall tl s p f, Forall (fun t => 1 <= len t) tl ->
+  web_go isalpha s (L s) tl = DYes p f ->
+  exists l1 l2 l3, s = l1 ++ l2 ++ l3 /\ l2 <> [] /\ p = osec l1 ++ [(L l2, Some LW)] ++ osec l3.
 Proof.
-  induction tl as [|tld tl IH]; intros s p f Htl Hp H; [discriminate|]. cbn [web_go] in H.
+  induction tl as [|tld tl IH]; intros s p f Htl H; [discriminate|]. cbn [web_go] in H.
   inversion Htl as [|? ? Ht1 Htl']; subst.
-  destruct (web_scan isalpha (S (S (length (lower s)))) (lower s) tld (find (lower s) tld) (find (lower s) tld))
+  destruct (web_scan isalpha (S (S (length (L s)))) (L s) tld (find (L s) tld) (find (L s) tld))
     as [[T|]|] eqn:Es; [| |discriminate].
   - apply web_scan_spec in Es; [|assumption|].
     + eapply web_accept_spec; eassumption.
@@ -224,16 +233,17 @@ Proof.
     intros Hne. destruct (Hocc Hne). unfold len in *. lia.
 Qed.
 
-Lemma detect_website_split_ok s p f : good s -> detect_website isalpha lower_c tlds s = DYes p f ->
+Lemma detect_website_split_ok s p f : good s -> detect_website isalpha lower_c true tlds s = DYes p f ->
   split_ok pm good sound s p.
 Proof.
   intros Hg H. unfold detect_website in H.
-  destruct (negb (contains (lower s) [c_dot])); [discriminate|].
-  apply web_go_spec in H; [|assumption|now apply (good_lenp isalpha isdigit)].
+  rewrite (working_aligned lower_c s (good_lowne isalpha isdigit lower_c s Hg)) in H.
+  destruct (negb (contains (L s) [c_dot])); [discriminate|].
+  apply web_go_spec in H; [|assumption].
   destruct H as (l1 & l2 & l3 & -> & Hne & ->).
   destruct (good_pieces isalpha isdigit lower_c kbs min_run year_prefixes context_strings _ _ _ Hg) as (G1 & G3).
   assert (Hg2 : good l2). { apply good_app in Hg. destruct Hg as (_ & Hg). apply good_app in Hg. tauto. }
-  assert (Hll : len (lower l2) = len l2) by (apply lower_len; now apply (good_lenp isalpha isdigit)).
+  assert (Hll : len (L l2) = len l2) by (apply L_len).
   apply shape_split_ok; try assumption.
   - apply pm_unlab.
   - exists [l2]. split; [simpl; apply app_nil_r|]. constructor; [reflexivity|constructor].
